@@ -27,10 +27,16 @@ func runC20(c *Check) {
 	c.Doc("C20-R1", "ER: cursor increment reachable after a retrieval only for Success/NotFound.")
 	c.Doc("C20-R2", "EO+VP: remainder push is followed by a cursor increment before the cursor is persisted.")
 	c.Doc("C20-R3", "GA: size guard on appends to the batch.")
+	c.Doc("C20-R9", "GA+VP: the scan start is the persisted position, the configured start, or a value taken only behind a comparison showing it larger than a value that includes the persisted position.")
 	c.Doc("C20-R7", "EO: every non-error return after a cursor increment or a durable remainder push passes the write of the scan position.")
 	c.Doc("C20-R4", "EO+VP: pop before scan, in-order append, remainder = Data[i:]/IDs[i:], persisted value = cursor.")
 	fnb := p.MustFunc("(*" + basedPkg + ".Sequencer).GetNextBatch")
-	g := BuildECFG(p, fnb, ExpandOpts{MaxDepth: 0})
+	// helpers of the sequencer itself are looked through (a scan-position getter/setter); the
+	// carry-over queue's methods and the retrieval helper stay leaves, they are anchors
+	g := BuildECFG(p, fnb, ExpandOpts{MaxDepth: 1, Stop: func(f *ssa.Function) bool {
+		n := fnName(f)
+		return strings.Contains(n, "PersistentPendingTxs).") || strings.HasSuffix(n, "types.RetrieveWithHelpers") || (fnPkg(f) != nil && fnPkg(f).Pkg.Path() != basedPkg)
+	}})
 	c.NoteGraph(g)
 	fn := fnName(fnb)
 	isRetrieve := IsCall(typesF("RetrieveWithHelpers"))
@@ -45,11 +51,19 @@ func runC20(c *Check) {
 	{
 		var find func(v ssa.Value, d int)
 		seen := map[ssa.Value]bool{}
+		fctx := puts[0].Ctx
 		find = func(v ssa.Value, d int) {
 			if v == nil || seen[v] || d > 8 || cursor != nil {
 				return
 			}
 			seen[v] = true
+			if prm, ok := v.(*ssa.Parameter); ok {
+				if rv, rc := resolveParam(prm, fctx); rv != ssa.Value(prm) {
+					fctx = rc
+					find(rv, d+1)
+				}
+				return
+			}
 			switch x := v.(type) {
 			case *ssa.Phi:
 				if bt, ok := x.Type().Underlying().(interface{ Kind() interface{} }); ok {
@@ -214,6 +228,145 @@ func runC20(c *Check) {
 		c.Decide("C20-R7", "GetNextBatch ⟂ scan-moved→cursor-persisted", fn, p.InstrPos(puts[0].In), "every non-error return after the scan moved or a remainder was queued passes the write of the scan position",
 			"the call can return after the scan moved past a DA height (its transactions released or queued durably) without writing the scan position: after a restart that height is scanned again and its transactions are released twice", g,
 			g.PathAvoiding(moved, nodeSet(okExits), nodeSet(puts)))
+	}
+	// R9: the scan never starts below the persisted position. Every value that can become the
+	// scan start, other than the persisted position itself and the configured start it is compared
+	// with, is taken only behind a comparison showing it larger than a value that includes the
+	// persisted position (a max-update); otherwise a height already released (or queued) is
+	// scanned again.
+	{
+		// the persisted position: the cells json.Unmarshal fills from a datastore read (in this
+		// function or in a helper of the package), and receiver fields that remember such a cell
+		cells := map[ssa.Value]bool{}
+		for _, f := range p.Funcs {
+			if pk := fnPkg(f); pk == nil || pk.Pkg.Path() != basedPkg {
+				continue
+			}
+			for _, b := range f.Blocks {
+				for _, in := range b.Instrs {
+					call, ok := in.(*ssa.Call)
+					if !ok || commonName(call.Common()) != "encoding/json.Unmarshal" || len(call.Common().Args) < 2 {
+						continue
+					}
+					src := TermOf(call.Common().Args[0], &Ctx{Fn: f})
+					if !strings.Contains(src.String(), "go-datastore.") || !strings.Contains(src.String(), ").Get(") {
+						continue
+					}
+					v := call.Common().Args[1]
+					if mi, ok := v.(*ssa.MakeInterface); ok {
+						v = mi.X
+					}
+					if al, ok := v.(*ssa.Alloc); ok && strings.Contains(al.Type().String(), "uint64") {
+						cells[al] = true
+					}
+				}
+			}
+		}
+		var cell ssa.Value
+		for k := range cells {
+			cell = k
+		}
+		direct := func(x *Term) bool {
+			if u, ok := x.V.(*ssa.UnOp); ok && cells[u.X] {
+				return true
+			}
+			return x.V != nil && cells[x.V]
+		}
+		memo := map[string]bool{}
+		for _, f := range p.Funcs {
+			if pk := fnPkg(f); pk == nil || pk.Pkg.Path() != basedPkg {
+				continue
+			}
+			for _, b := range f.Blocks {
+				for _, in := range b.Instrs {
+					st, ok := in.(*ssa.Store)
+					if !ok {
+						continue
+					}
+					fa, ok := st.Addr.(*ssa.FieldAddr)
+					if !ok {
+						continue
+					}
+					if TermOf(st.Val, &Ctx{Fn: f}).Contains(direct) {
+						memo[fieldLabel(fa.X.Type(), fa.Field)] = true
+					}
+				}
+			}
+		}
+		mentionsCell := func(t *Term) bool {
+			return p.DeepContains(t, func(x *Term) bool {
+				return direct(x) || (x.Op == "field" && memo[x.Name])
+			}, 2)
+		}
+		if cell == nil {
+			c.Unk("C20-R9", "GetNextBatch ⟂ scan-start>=persisted-position", fn, "", "anchor lost: the persisted scan position is not decoded with json.Unmarshal from a datastore read")
+		} else {
+			bad := ""
+			nAlt := 0
+			var phis []*ssa.Phi
+			for v := range family {
+				if ph, ok := v.(*ssa.Phi); ok {
+					phis = append(phis, ph)
+				}
+			}
+			// phis feeding the family from before the loop
+			for i := 0; i < len(phis); i++ {
+				for _, e := range phis[i].Edges {
+					if ph, ok := e.(*ssa.Phi); ok {
+						dup := false
+						for _, q := range phis {
+							if q == ph {
+								dup = true
+							}
+						}
+						if !dup {
+							phis = append(phis, ph)
+						}
+					}
+				}
+			}
+			sort.Slice(phis, func(i, j int) bool { return phis[i].Pos() < phis[j].Pos() })
+			for _, ph := range phis {
+				for i, e := range ph.Edges {
+					if _, isPhi := e.(*ssa.Phi); isPhi {
+						continue
+					}
+					if b, ok := e.(*ssa.BinOp); ok && family[b.X] {
+						continue // the loop's own increment
+					}
+					t := TermOf(e, g.RootCtx)
+					if mentionsCell(t) || (t.Op == "field" && t.Name == "daStartHeight") {
+						continue // the persisted position itself, or the configured start
+					}
+					nAlt++
+					pred := ph.Block().Preds[i]
+					okGuard := false
+					for _, f := range g.NecessaryEdges(func(n *Node) bool { return n.Kind != NEntry && n.In != nil && n.In.Block() == pred && n.Ctx == g.RootCtx }) {
+						ft, pol := normFact(f.Cond, f.Pol)
+						if ft.Op != "bin" || len(ft.Args) != 2 {
+							continue
+						}
+						larger := (pol && (ft.Name == ">" || ft.Name == ">=")) || (!pol && (ft.Name == "<" || ft.Name == "<="))
+						smaller := (pol && (ft.Name == "<" || ft.Name == "<=")) || (!pol && (ft.Name == ">" || ft.Name == ">="))
+						if larger && mentionsCell(ft.Args[1]) || smaller && mentionsCell(ft.Args[0]) {
+							okGuard = true
+						}
+					}
+					if !okGuard {
+						bad = trunc(t.String(), 80)
+					}
+				}
+			}
+			switch {
+			case nAlt == 0:
+				c.OK("C20-R9", "GetNextBatch ⟂ scan-start>=persisted-position", fn, p.InstrPos(puts[0].In), "the scan start is the persisted position or the configured start", true)
+			case bad == "":
+				c.OK("C20-R9", "GetNextBatch ⟂ scan-start>=persisted-position", fn, p.InstrPos(puts[0].In), "every other candidate for the scan start is taken only when it is larger than a value that includes the persisted position", true)
+			default:
+				c.Bad("C20-R9", "GetNextBatch ⟂ scan-start>=persisted-position", fn, p.InstrPos(puts[0].In), "the scan can start at "+bad+" without that value having been compared with the persisted scan position: it can fall behind heights already released or queued, whose transactions are then released a second time", nil)
+			}
+		}
+		c.MinInstances("C20-R9", 1)
 	}
 	// R3
 	txApps := g.Select(func(n *Node) bool {
